@@ -18,6 +18,10 @@ MALFORMED_ATOMS = ["foo", "Bar", "BAZ", "x", "A", "id", "ID", "Id", "API", "api"
                    "oauth", "IDE", "NTIFIERS", "JSONB", "json", "Ui", "UID", "v2", "V2", "iOS", "e", "I"]
 
 
+EXT_WORDS = ["lib", "java", "so", "md", "txt", "exe", "rs", "py", "go", "lock", "sh", "rb", "conf", "cfg", "bin", "dat", "log",
+             "bak", "tmp", "zip", "tar", "doc", "class", "swift", "kt", "ts", "js", "yml", "ini", "env", "cpp"]
+
+
 def toks(line):
     f = line.split()
     return [unhex(x).decode() for x in f[1:]]
@@ -25,7 +29,8 @@ def toks(line):
 
 def run(ctx):
     ctx.cov["rule"] = ("tokens/tostyle/detect requests: exhaustive over sequences of length 1..3 of the 12-word neutral vocabulary "
-                       "x 14 styles (quick: lengths 1..2 exhaustive + 300 sampled triples), random sequences up to length 8, "
+                       "x 14 styles (quick: lengths 1..2 exhaustive + 300 sampled triples), random sequences up to length 8, sequences of length "
+                       "2-3 with a word that is also a file extension (lib, java, so, md, lock ...) in every position, "
                        "malformed stream of 3000 (quick 800) concatenations of hostile atoms; variant table for ordered term pairs. "
                        "non-trivial = at least two words or a hostile atom; distinct = distinct request line")
     ctx.assumptions += ["acronym set = DEFAULT_ACRONYMS (regenerated from acronym.rs on every run)",
@@ -45,6 +50,14 @@ def run(ctx):
         seqs += rng.sample(triples, 300)
     for _ in range(400 if ctx.thorough else 100):
         seqs.append([rng.choice(V) for _ in range(rng.randint(4, 8))])
+    # ordinary lower-case words that are ALSO spelled like file extensions or common short suffixes (none is in the acronym
+    # set): `delta.lib`, `alpha_so`, `LockTiger` are renderings like any other — every position, lengths 2 and 3
+    E = EXT_WORDS if ctx.thorough else EXT_WORDS[:6] + rng.sample(EXT_WORDS[6:], 4)
+    base = V[:4] if ctx.thorough else V[:2]
+    for e in E:
+        for a in base:
+            seqs += [[a, e], [e, a], [e, e]]
+            seqs += [[a, V[5], e], [e, a, V[6]], [a, e, V[7]]]
 
     # ---- round trip / detection / idempotence -------------------------------------------------
     reqs, meta = [], []
